@@ -4,6 +4,7 @@ its preservation by `fill_buf` / `consume`, and schedule independence of `read_t
 Used by C12 (detection prefix) and C18.
 -/
 import SfsModel.Model.IoModel
+import SfsModel.Model.Detect
 namespace Sfs
 
 /-- A reader that never fails and whose current buffer lies inside the remaining data. -/
@@ -88,5 +89,51 @@ theorem Rd.readToEnd_schedule_free (fuel : Nat) (r : Rd) (h : Rd.Ok r) (hfuel : 
     ∃ r', r.readToEnd fuel = .ok (r.data, r') ∧ r'.data = [] := by
   obtain ⟨r', he, hd, _⟩ := Rd.readToEnd_schedule_free_ok fuel r h hfuel
   exact ⟨r', he, hd⟩
+
+/-- `take(limit).read_to_end` on an `Ok` reader: exactly the first `limit` bytes of the remaining data (all of it if
+    shorter) whatever the chunk schedule, and the reader is left `Ok` right behind them. -/
+theorem Rd.readUpTo_ok (fuel : Nat) (r : Rd) (h : Rd.Ok r) (limit : Nat) (hfuel : limit ≤ fuel) :
+    ∃ r', r.readUpTo fuel limit = .ok (r.data.take limit, r') ∧ Rd.Ok r' ∧ r'.data = r.data.drop limit := by
+  induction fuel generalizing r limit with
+  | zero =>
+    have : limit = 0 := by omega
+    subst this
+    exact ⟨r, by simp [Rd.readUpTo], h, by simp⟩
+  | succ fuel ih =>
+    cases limit with
+    | zero => exact ⟨r, by simp [Rd.readUpTo], h, by simp⟩
+    | succ n =>
+      unfold Rd.readUpTo
+      by_cases hne : r.data = []
+      · obtain ⟨r', he, hok, hd, _, _, h0⟩ := Rd.fillBuf_ok r h
+        rw [he, h0 hne, hne]
+        exact ⟨r', by simp, hok, by rw [hd, hne]; simp⟩
+      · obtain ⟨r', he, hok, hd, h1, hlen⟩ := Rd.fillBuf_ok_nonempty r h hne
+        rw [he]
+        have hnemp : (r.data.take r'.avail).isEmpty = false := by
+          cases hb : r.data.take r'.avail with
+          | nil => rw [hb] at hlen; simp at hlen; omega
+          | cons _ _ => rfl
+        simp only [hnemp, Bool.false_eq_true, if_false, hlen]
+        have hle : r'.avail ≤ r.data.length := hd ▸ hok.1
+        have hok2 := Rd.consume_ok r' (min r'.avail (n + 1)) hok
+        have hd2 : (r'.consume (min r'.avail (n + 1))).data = r.data.drop (min r'.avail (n + 1)) := by
+          rw [Rd.consume_data, hd]
+        obtain ⟨r'', he2, hok3, hd3⟩ :=
+          ih (r'.consume (min r'.avail (n + 1))) hok2 (n + 1 - min r'.avail (n + 1)) (by omega)
+        rw [he2]
+        refine ⟨r'', ?_, hok3, ?_⟩
+        · dsimp only
+          have hm : min (min r'.avail (n + 1)) r'.avail = min r'.avail (n + 1) := by omega
+          rw [hd2, List.take_take, hm, ← List.take_add]
+          congr 3
+          omega
+        · rw [hd3, hd2, List.drop_drop]; congr 1; omega
+
+/-- the detection prefix (`Model/Detect.lean`) on an `Ok` reader: the first 64 KiB whatever the chunk schedule, with the
+    reader left `Ok` on the rest of the data. -/
+theorem readPrefix_ok_rest (r : Rd) (h : Rd.Ok r) :
+    ∃ r', readPrefix r = .ok (r.data.take 65536, r') ∧ Rd.Ok r' ∧ r'.data = r.data.drop 65536 :=
+  Rd.readUpTo_ok 65536 r h 65536 (Nat.le_refl _)
 
 end Sfs
